@@ -118,6 +118,28 @@ func (env *SpecEnv) eval(x Expr) SVal {
 	case *ECond:
 		c := env.evalBool(n.C)
 		a, b := env.eval(n.A), env.eval(n.B)
+		// a nil branch takes the shape of the other branch (nil []byte, nil reference, zero value)
+		nilLike := func(o SVal) SVal {
+			switch {
+			case o.G == "Seq":
+				return SVal{V: scalar(nilBytes()), G: "Seq"}
+			case o.G == "Ref" || o.G == "int":
+				return SVal{V: scalar(IntLit(0)), G: o.G}
+			case o.T != nil:
+				return SVal{V: zeroVal(o.T), T: o.T}
+			}
+			unsupp("nil in a conditional expression whose other branch has no usable type")
+			return SVal{}
+		}
+		if a.Nil && b.Nil {
+			return a
+		}
+		if a.Nil {
+			a = nilLike(b)
+		}
+		if b.Nil {
+			b = nilLike(a)
+		}
 		r := a
 		r.V = iteVal(c, a.V, b.V)
 		return r
@@ -637,6 +659,8 @@ func (env *SpecEnv) call(n *ECall) SVal {
 				parts = append(parts, IntLit(typeID(t)), App("box_seq", SInt, v.V.T))
 			case kInt:
 				parts = append(parts, IntLit(typeID(t)), App("box_int", SInt, v.V.T))
+			case kRef:
+				parts = append(parts, IntLit(typeID(t)), v.V.T)
 			default:
 				unsupp("sprintf argument of type %s", t)
 			}
@@ -892,6 +916,9 @@ func (env *SpecEnv) isNil(v SVal) *Term {
 	if v.G != "" {
 		if v.G == "Ref" || v.G == "int" {
 			return Eq(v.V.T, IntLit(0))
+		}
+		if v.G == "Seq" {
+			return Eq(v.V.T, nilBytes()) // the nil []byte (a string-valued ghost is never equal to it by s2b's axiom only when wrapped)
 		}
 		unsupp("nil comparison on ghost %s", v.G)
 	}
